@@ -206,7 +206,7 @@ class C11(Prop):
         base = cmd.lstrip("$")
         bad = r.random() < 0.2
         if cmd.startswith("$") and base not in ("DELAY", "ENTER"):
-            return r.choice(['"a"+1', "1+2", "v", '"x"', "3*2", "nosuch" if bad else "7", "1/0" if bad else "2"])
+            return r.choice(['"a"+1', "1+2", "v", '"x"', "3*2", '" lead"', '"trail "+v', '"  "', "nosuch" if bad else "7", "1/0" if bad else "2"])
         if base in ("STRING", "STRINGLN", "REM", "PRINT", "FOO", "ALTSTRING", "ALTCODE"):
             return (gen.rtext(r, r.randint(1, 6)).strip() or "t")
         if base == "ALT":
@@ -246,10 +246,13 @@ class C11(Prop):
                 args = [self.arg_for(r, cmd) for _ in range(r.randint(1, 4))]
                 grp = "g%d" % k
                 for s_i, t in enumerate(self.spellings(cmd, args)):
-                    cases.append(comp(t, {}, group=grp, spelling=s_i))
+                    cases.append(comp(t, {"include_comments": True}, group=grp, spelling=s_i))
             elif x < 0.9:
                 cmd = r.choice(["STRING", "STRINGLN", "REM", "FOO", "IGNORE", "PRINT", "ALTSTRING"])
                 body = [(" " * r.randint(0, 5)) + (gen.rtext(r, r.randint(1, 6)).strip() or "v") for _ in range(r.randint(1, 4))]
+                if r.random() < 0.3:
+                    # a verbatim line that itself begins with three quotes, deeper than the delimiters
+                    body.insert(r.randrange(len(body) + 1), " " * r.randint(1, 4) + r.choice(['"""doc"""', '"""', '""""x']))
                 unit = r.choice(["    ", "\t", "  "])
                 text = cmd + "\n" + unit + '"""\n' + "\n".join(unit + b for b in body) + "\n" + unit + '"""'
                 if cmd == "IGNORE":
@@ -276,9 +279,11 @@ class C11(Prop):
 
     def corpus(self, tier):
         out = []
-        for t, exp in [('$STRING "a"+1', ["STRING a1"]), ("$STRING 4/2", ["STRING 2"]), ("$ALT \"es\"+\"c\"", ["ALT ESC"]), ("$FOO 1+1", ["FOO 2"]),
+        for t, exp in [('$REM "  lead"', ["REM   lead"]), ('$REM "trail  "', ["REM trail  "]), ('$ALTSTRING " x "', ["ALTSTRING  x "]), ('$FOO "  a"+"b "', ["FOO   ab "]),
+                       ('$CTRL " "', ["CTRL  "]), ('$PRINT " p "\nSTRING z', ["STRING z"]), ('STRING\n    """\n      """q"""\n    x\n    """', ['STRING   """q"""', "STRING x"]),
+                       ('$STRING "a"+1', ["STRING a1"]), ("$STRING 4/2", ["STRING 2"]), ("$ALT \"es\"+\"c\"", ["ALT ESC"]), ("$FOO 1+1", ["FOO 2"]),
                        ("$STRINGLN TRUE", ["STRINGLN True"]), ("$ENTER 3", ["ENTER"] * 3), ("WHITESPACE 0", []), ("WHITESPACE", [""]), ("WHITESPACE 99", [""] * 99)]:
-            out.append(comp(t, {}, expect_out=exp))
+            out.append(comp(t, {"include_comments": True}, expect_out=exp))
         for t in ["WHITESPACE 100", "WHITESPACE -1", "WHITESPACE 0-1"]:
             out.append(comp(t, {}, expect_fail=True))
         out.append(comp("DEFAULT_DELAY\n  5\n  $DEFAULT_DELAY+1", {}, group="dd", spelling=0))
@@ -358,19 +363,28 @@ class C12(Prop):
                 continue
             sub = r.choice([("lib.txt",), ("d", "lib.txt"), ("d", "e", "lib.txt")])
             dotted = ".".join(list(sub[:-1]) + ["lib"])
-            L = refsem.to_lines
+            L0 = refsem.to_lines
+            dd = r.random() < 0.35
+            ddn = r.randint(1, 99)
+
+            def L(stmts, _w=[0]):
+                # system variables are shared like user variables: set $DEFAULT_DELAY before, read it inside and after
+                return L0(stmts)
             grp = "s%d" % k
-            paste = "\n".join(L(pre) + L(mid) + L(post))
-            sub_text = "\n".join(L(mid))
+            pre_l = (["DEFAULT_DELAY %d" % ddn] if dd else []) + L(pre)
+            mid_l = L(mid) + (["$STRING \"dd=\"+$DEFAULT_DELAY"] if dd else [])
+            post_l = (["$STRING \"after=\"+$DEFAULT_DELAY"] if dd else []) + L(post)
+            paste = "\n".join(pre_l + mid_l + post_l)
+            sub_text = "\n".join(mid_l)
             if r.random() < 0.4:
                 # blank / whitespace-only lines around the imported text change nothing but line numbers
                 sub_text = r.choice(["\n", "\n\n", "  \n", "\t\n\n"]) + sub_text + r.choice(["", "\n", "\n  \n"])
             cases.append(fcase({("main.txt",): paste}, ("main.txt",), {}, group=grp, role="paste"))
-            cases.append(fcase({("main.txt",): "\n".join(L(pre) + ["START " + dotted] + L(post)), sub: sub_text}, ("main.txt",), {}, group=grp, role="start"))
-            cases.append(fcase({("main.txt",): "\n".join(L(pre) + L(mid))}, ("main.txt",), {}, group=grp, role="paste_nopost"))
-            cases.append(fcase({("main.txt",): "\n".join(L(pre))}, ("main.txt",), {}, group=grp, role="pre"))
-            cases.append(fcase({("main.txt",): "\n".join(L(pre) + ["STARTCODE " + dotted]), sub: sub_text}, ("main.txt",), {}, group=grp, role="startcode"))
-            cases.append(fcase({("main.txt",): "\n".join(L(pre) + ["STARTENV " + dotted]), sub: sub_text}, ("main.txt",), {}, group=grp, role="startenv"))
+            cases.append(fcase({("main.txt",): "\n".join(pre_l + ["START " + dotted] + post_l), sub: sub_text}, ("main.txt",), {}, group=grp, role="start"))
+            cases.append(fcase({("main.txt",): "\n".join(pre_l + mid_l)}, ("main.txt",), {}, group=grp, role="paste_nopost"))
+            cases.append(fcase({("main.txt",): "\n".join(pre_l)}, ("main.txt",), {}, group=grp, role="pre"))
+            cases.append(fcase({("main.txt",): "\n".join(pre_l + ["STARTCODE " + dotted]), sub: sub_text}, ("main.txt",), {}, group=grp, role="startcode"))
+            cases.append(fcase({("main.txt",): "\n".join(pre_l + ["STARTENV " + dotted]), sub: sub_text}, ("main.txt",), {}, group=grp, role="startenv"))
         return cases
 
     def corpus(self, tier):
@@ -391,6 +405,9 @@ class C12(Prop):
                          expect_out=["STRING 1", "STRING 11", "STRING g"]))
         out.append(fcase({("m.txt",): "VAR a 1\nSTARTCODE f\n$STRING a\nNOTEXIST b", ("f.txt",): "STRING out\nVAR a 5\nVAR b 6"}, ("m.txt",), expect_out=["STRING out", "STRING 5"]))
         out.append(fcase({("m.txt",): "STARTENV f\n$STRING b", ("f.txt",): "STRING hidden\nVAR b 6\nPRINT shown"}, ("m.txt",), expect_out=["STRING 6"]))
+        for kind in ("START", "STARTCODE", "STARTENV"):
+            out.append(fcase({("m.txt",): "DEFAULT_DELAY 7\n%s f\n$STRING $DEFAULT_DELAY" % kind, ("f.txt",): "$STRING \"in=\"+$DEFAULT_DELAY"}, ("m.txt",),
+                             expect_out=["DEFAULT_DELAY 7"] + (["STRING in=7"] if kind != "STARTENV" else []) + ["STRING 7"]))
         out.append(fcase({("m.txt",): "START f\nSTRING after", ("f.txt",): "STRING a\n  bad indent\n      worse"}, ("m.txt",)))
         # an imported file is parsed exactly like a file compiled directly: leading blank lines keep
         # their line numbers, an indented first code line is a tab error
@@ -1036,20 +1053,26 @@ class C19(Prop):
                 if stale:
                     open(outp, "w").write("STALE PAYLOAD")
                 with_proj_cfg = r.random() < 0.4
+                proj_cfg = r.choice([{"include_comments": True, "stack_limit": 30}, {"stack_limit": 30}, {"flipper_commands": True}, {"include_comments": False}])
+                cli_comments = r.random() < 0.5
+                cli_limit = r.choice([20, 20, 40])
                 if with_proj_cfg:
-                    yaml.dump({"include_comments": True, "stack_limit": 30}, open(os.path.join(proj, "config.yaml"), "w"))
+                    yaml.dump(proj_cfg, open(os.path.join(proj, "config.yaml"), "w"))
                 if r.random() < 0.4:
                     os.makedirs(os.path.join(home, ".duckling"))
                     yaml.dump({"include_comments": False, "flipper_commands": True, "stack_limit": 25, "supress_command_not_exist": False, "use_project_config": True},
                               open(os.path.join(home, ".duckling", "config.yaml"), "w"))
                 # what the compiler itself says (same options the CLI will use)
                 before = snapshot(base)
-                res = self.run_cli({"cmd": "compile", "cwd": proj, "file": "main.txt", "output": "out.txt"}, home)
+                res = self.run_cli({"cmd": "compile", "cwd": proj, "file": "main.txt", "output": "out.txt", "comments": cli_comments, "stack_limit": cli_limit}, home)
                 ev += 1
                 after = snapshot(base)
-                case = {"kind": "cli", "source": src, "stale_output": stale, "project_config": with_proj_cfg}
+                case = {"kind": "cli", "source": src, "stale_output": stale, "project_config": proj_cfg if with_proj_cfg else None, "cli": {"comments": cli_comments, "stack_limit": cli_limit}}
                 try:
-                    opts = ds.CompileOptions(include_comments=with_proj_cfg, stack_limit=30 if with_proj_cfg else 20) if with_proj_cfg else ds.CompileOptions()
+                    if with_proj_cfg:
+                        opts = ds.CompileOptions(**proj_cfg)     # the project file replaces the options (both allow it)
+                    else:
+                        opts = ds.CompileOptions(include_comments=cli_comments, stack_limit=cli_limit)
                     expect = ds.Compiler(opts).compile(src)
                     ok = True
                 except ds.CompilationError:
